@@ -32,7 +32,9 @@ META = {
     'alphabet': {'names': NAMES, 'extra names on the module-level library': MODULE_NAMES,
                  'targets': ['local library L1', 'module-level library G'],
                  'bystanders': 'L2 preloaded with Q, A; the other of L1/G preloaded with Q (and B)',
-                 'id lookups': '-1 .. len+3', 'churn': '12 sequences of 40 short-lived libraries with 1..3 tags each, same / different '
+                 'id lookups': '-1 .. len+3, also as numpy int64 / uint8 scalars',
+                 'blind leg': 'every attribute name the library or its class shows after use, every builtin identifier used in '
+                              'Tags.py and every module global, added to a pristine library before anything was read', 'churn': '12 sequences of 40 short-lived libraries with 1..3 tags each, same / different '
                  'names, read back after every add or only at the end', 'name lookups': 'every alphabet name, NONE, an unknown name'},
     'bounds': {'quick': 'depth 3 per target; fresh-interpreter leg: all module-level histories of depth <= 1',
                'thorough': 'depth 4 per target; fresh-interpreter leg: depth <= 2'},
@@ -74,6 +76,10 @@ def observe_lib(lib, names, is_module, mod=None):
     obs['itemize'] = [list(t) for t in items] if isinstance(items, list) else items
     top = n if isinstance(n, int) else 8
     obs['by_id'] = {str(i): _try(lambda i=i: getname(i)) for i in range(-1, top + 4)}
+    # the same ids as numpy integer scalars (an id taken from an array or a data frame column)
+    import numpy as np
+    obs['by_npid'] = {str(i): _try(lambda i=i: getname(np.int64(i))) for i in range(0, top + 2)}
+    obs['by_npid'].update({f'u{i}': _try(lambda i=i: getname(np.uint8(i))) for i in range(0, min(top, 3))})
     by_name = {}
     for name in names:
         v = _try(lambda name=name: look(name))
@@ -109,6 +115,11 @@ def judge(obs, acc, is_module, who):
         want = (['NONE'] + acc)[i] if 0 <= i < n else 'EXC:TagNotFoundError'
         if got != want:
             raise Violation(f'{who}: get_tag_name({i})', expected=want, observed=got)
+    for key, got in obs.get('by_npid', {}).items():
+        i = int(key.lstrip('u'))
+        want = (['NONE'] + acc)[i] if 0 <= i < n else 'EXC:TagNotFoundError'
+        if got != want:
+            raise Violation(f'{who}: get_tag_name({i} as a numpy integer)', expected=want, observed=got)
     for name, got in obs['by_name'].items():
         if name == 'NONE':
             want = 0
@@ -222,6 +233,57 @@ def _first_diff(a, b):
 
 
 # ---------------------------------------------------------------------------------------------------------
+# blind leg: names taken from the library itself, added BEFORE anything was read
+# ---------------------------------------------------------------------------------------------------------
+
+def discovered_names():
+    """Every attribute name a library object or its class ever shows after all its operations have been used once
+    (lazily created caches included), every identifier of Tags.py that is a builtin, and the module's globals."""
+    import builtins
+    import re
+    mod = load_module()
+    lib = mod.TagLibrary()
+    before = set(vars(lib))
+    lib.add_tag('A')
+    lib.itemize()
+    len(lib)
+    lib.get_tag_name(1)
+    getattr(lib, 'A')
+    names = set(vars(lib)) | set(dir(lib)) | before
+    with open(TAGS_PATH) as f:
+        idents = set(re.findall(r'[A-Za-z_][A-Za-z0-9_]*', f.read()))
+    names |= {i for i in idents if hasattr(builtins, i)}
+    names |= {n for n in vars(mod) if not n.startswith('__')}
+    names.discard('A')
+    return sorted(names)
+
+
+def blind_case(case):
+    """The name is added to a pristine library (nothing read before); then another tag; then the full read-back."""
+    mod = load_module()
+    name, target = case['name'], case['target']
+    look = sorted({name, 'NONE', UNKNOWN, 'B2'})
+    L1 = mod.TagLibrary()
+    L2 = mod.TagLibrary()
+    add = mod.add_tag if target == 'G' else L1.add_tag
+    acc = []
+    try:
+        add(name)
+        acc.append(name)
+    except Exception:           # noqa - rejected: judged by what it leaves behind
+        pass
+    if case['read_between']:
+        (mod.itemize if target == 'G' else L1.itemize)()
+    add('B2')
+    acc.append('B2')
+    obs = {'L1': observe_lib(L1, look, False), 'L2': observe_lib(L2, look, False), 'G': observe_lib(None, look, True, mod)}
+    judge(obs['L1'], acc if target == 'L1' else [], False, f'L1 after blind add of {name!r} to {target}')
+    judge(obs['L2'], [], False, f'bystander library after blind add of {name!r} to {target}')
+    judge(obs['G'], acc if target == 'G' else [], True, f'module-level library after blind add of {name!r} to {target}')
+    return (name, target, len(acc))
+
+
+# ---------------------------------------------------------------------------------------------------------
 # churn leg: many short-lived libraries (object addresses get reused)
 # ---------------------------------------------------------------------------------------------------------
 
@@ -239,12 +301,21 @@ def churn_case(case):
             lib.add_tag(name)
             acc.append(name)
             if case['read_each']:
-                judge(observe_lib(lib, look + acc, False), acc, False, f'short-lived library #{i} after {acc}')
+                _judge_churn(lib, look, acc, i)
                 n += 1
-        judge(observe_lib(lib, look + acc, False), acc, False, f'short-lived library #{i} after {acc}')
+        _judge_churn(lib, look, acc, i)
         n += 1
         del lib
     return n
+
+
+def _judge_churn(lib, look, acc, i):
+    # which round fails depends on which object address gets reused, so the message does not name the round
+    try:
+        judge(observe_lib(lib, look + acc, False), acc, False, 'a short-lived library')
+    except Violation as v:
+        raise Violation(v.msg + ' (one of a sequence of libraries created and dropped one after the other)',
+                        expected=v.expected, observed={'round': i, 'tags': acc, 'got': v.observed})
 
 
 def churn_cases():
@@ -332,6 +403,18 @@ def run(ctx):
         if ctx.violations:
             return
     ctx.caps.append(f'depth bound {depth} per target (all histories up to that depth covered)')
+    blind = [{'leg': 'blind', 'name': n, 'target': t, 'read_between': rb} for n in discovered_names()
+             for t in ('L1', 'G') for rb in (False, True)]
+    for case in blind:
+        ctx.traces += 1
+        ctx.states += 1
+        ctx.transitions += 2
+        try:
+            ctx.outcome(hbfs._guard(blind_case, case))
+        except Violation as v:
+            ctx.report(case, v)
+            return
+    ctx.leg('blind', cases=len(blind), names=len(blind) // 4)
     for case in churn_cases():
         ctx.traces += 1
         ctx.states += case['rounds']
@@ -352,7 +435,9 @@ def run(ctx):
 
 
 def replay(case):
-    if case['leg'] == 'churn':
+    if case['leg'] == 'blind':
+        hbfs._guard(blind_case, case)
+    elif case['leg'] == 'churn':
         hbfs._guard(churn_case, case)
     elif case['leg'] == 'fresh_interpreter':
         hbfs._guard(child_case, case)
